@@ -770,6 +770,7 @@ Definition run_line (line : list byte) : list byte :=
     else if tok_eqb cmd "PEEKF" then run_peekf args
     else if tok_eqb cmd "SHOW" then run_show args
     else if tok_eqb cmd "COUNTS" then run_counts args
+    else if tok_eqb cmd "SOCKR" then s2b "SOCK"
     else if tok_eqb cmd "SOCK" then s2b "SOCK"     (* real sockets: nothing to compute; C14_responder_total says the loop body returns *)
     else s2b "BADCASE"
   end.
